@@ -26,6 +26,8 @@ Static assumptions (stated in harness/props/C12.py ASSUMES):
   _libsc3.main.current_tt._clock is not self  is False  (meter changes come from routines on the clock)
 
 Setters/etempo become functions  clockstate -> ... -> option clockstate  (None = the method raised).
+For each of them `<name>_retimes : bool` records whether its NRT branch calls
+`_libsc3.main._clock_scheduler.retime(self)` (pending tasks follow the new map; read by model/Tempo.v).
 `play`/`play_next_bar` are reduced to the beat they hand to `self.sched_abs` (the scheduler itself is
 not arithmetic; it is modelled in coq/model/Tempo.v).  `Quant.as_quant` is hand-modelled there too; the
 defaults of the Quant named tuple are regenerated here.
@@ -120,6 +122,7 @@ class TempoTranslator(FuncTranslator):
         self.is_init = is_init
         self.used_now = False
         self.used_elapsed = False
+        self.retimes = False
 
     # ---- expressions
     def now(self):
@@ -206,6 +209,9 @@ class TempoTranslator(FuncTranslator):
             if isinstance(s, ast.If) and (_same(s, NRT_RETURN_SRC) or _same(s, NRT_RETIME_RETURN_SRC)):
                 if self.mode != 'proc' or rest:
                     refuse(s, 'scheduler wake-up pattern not in final position of a state-changing method')
+                # whether the NRT branch re-times the clock's pending tasks is regenerated too
+                # (Definition <name>_retimes : bool), the hand-written scheduler model reads it
+                self.retimes = _same(s, NRT_RETIME_RETURN_SRC)
                 return '(Some self)'
             if isinstance(s, ast.Return) and s.value is None and self.mode == 'proc':
                 return '(Some self)'
@@ -356,6 +362,9 @@ def gen_tempo(repo, gendir):
                 nargs = len(fd.args.args) - 1 - len(none_params)
                 env.setdefault('meth:' + pyname, {})[nargs] = ent
             out.append(code)
+            if mode == 'proc' and kind != 'init':
+                out.append('Definition %s_retimes : bool := %s.\n' % (coqname, 'true' if tr.retimes else 'false'))
+                ent['retimes'] = tr.retimes
             done[coqname] = ent
         except Refused as e:
             fail(coqname, e)
